@@ -1,7 +1,7 @@
 (* Extraction of the executable model for the correspondence check.
    Only ExtrOcamlBasic: Z, positive, N, nat stay Coq datatypes. *)
 Require Import ExtrOcamlBasic.
-From X86 Require Addr.Run Paging.EntryRun Machine.Run Tables.Run Codec.Run Paging.Run Paging.TreeRun Paging.RecNew.
+From X86 Require Addr.Run Paging.EntryRun Machine.Run Tables.Run Codec.Run Paging.Run Paging.TreeRun Paging.RecNew Tables.General.
 Extraction Language OCaml.
 Definition run_addr := Addr.Run.run_addr.
 Definition run_pte := Paging.EntryRun.run_pte.
@@ -11,4 +11,5 @@ Definition run_codec := Codec.Run.run_codec.
 Definition run_map := Paging.Run.run_map.
 Definition run_ptree := Paging.TreeRun.run_ptree.
 Definition run_rec := Paging.RecNew.run_rec.
-Extraction "model.ml" run_addr run_pte run_mach run_tbl run_codec run_map run_ptree run_rec.
+Definition run_gh := Tables.General.run_gh.
+Extraction "model.ml" run_addr run_pte run_mach run_tbl run_codec run_map run_ptree run_rec run_gh.
